@@ -2,7 +2,8 @@ import PdfModel.Lemmas.ShiftOffset
 
 /-! `parse_indirect_object` under a prefix and under a change of the lexer's file offset. -/
 
-namespace PdfLex
+namespace PdfShift
+open PdfLex
 
 variable {R : Type}
 
@@ -88,4 +89,4 @@ theorem parseIndirectObject_suffix (env : Env R) (pre sfx : Buf) (hsz : (pre ++ 
   have := parseIndirectObject_shift env pre sfx hsz hlen fuel 0 flags
   simpa using this
 
-end PdfLex
+end PdfShift
